@@ -6,11 +6,19 @@ import (
 	"fmt"
 	"go/token"
 	"go/types"
+	"os"
 
 	"golang.org/x/tools/go/ssa"
 )
 
 func (e *Engine) unsupported(what string) {
+	if e.cfg.Verbose > 0 && !e.unsupSeen[what] {
+		if e.unsupSeen == nil {
+			e.unsupSeen = map[string]bool{}
+		}
+		e.unsupSeen[what] = true
+		fmt.Fprintf(os.Stderr, "[shard %d] unsupported: %s\n  at instr: %s\n%s", e.cfg.Shard, what, e.curInstr(), e.stackTrace(e.th))
+	}
 	panic(&pathAbort{"unsupported:" + what})
 }
 
@@ -32,6 +40,9 @@ func (e *Engine) step() {
 	e.stepTh = *th
 	e.pendingAdv = nil
 	e.stepCount++
+	if e.cfg.Verbose > 0 && e.stepCount%20000000 == 0 {
+		fmt.Fprintf(os.Stderr, "[shard %d] %dM steps, paths=%d forks=%d, at:\n%s", e.cfg.Shard, e.stepCount/1000000, e.res.Paths, e.res.Forks, e.stackTrace(th))
+	}
 	if e.cfg.MaxSteps > 0 && e.stepCount > e.cfg.MaxSteps {
 		e.done = true
 		e.outcome = "unwind"
@@ -452,6 +463,10 @@ func scalarOfTerm(t *Term) Value {
 // splitInt case-splits a symbolic integer over [lo,hi]; ok=false selects the
 // out-of-range alternative.
 func (e *Engine) splitInt(what string, v Value, si scalarInfo, lo, hi int64) (int64, bool) {
+	return e.splitInt2(what, v, si, lo, hi, false)
+}
+
+func (e *Engine) splitInt2(what string, v Value, si scalarInfo, lo, hi int64, noOut bool) (int64, bool) {
 	if v.T == nil {
 		var x int64
 		if si.signed {
@@ -500,7 +515,11 @@ func (e *Engine) splitInt(what string, v Value, si scalarInfo, lo, hi int64) (in
 		return tt.And(tt.Ule(tt.Const(uint64(l), w), v.T), tt.Ule(v.T, tt.Const(uint64(hi), w)))
 	}()
 	var alts []alt
-	alts = append(alts, alt{cond: tt.Not(inRange)})
+	if noOut {
+		alts = append(alts, alt{cond: tt.tFalse})
+	} else {
+		alts = append(alts, alt{cond: tt.Not(inRange)})
+	}
 	max := e.cfg.MaxSplit
 	if max <= 0 {
 		max = 64
@@ -540,7 +559,7 @@ func (e *Engine) splitInt(what string, v Value, si scalarInfo, lo, hi int64) (in
 		e.sv.Assert(tt.Not(c))
 	}
 	e.sv.Pop()
-	if len(alts) == 2 && e.sv.CheckWith(alts[0].cond) == Unsat {
+	if len(alts) == 2 && (noOut || e.sv.CheckWith(alts[0].cond) == Unsat) {
 		// exactly one feasible value and no out-of-range alternative
 		e.noteEq(v.T, uint64(alts[1].payload)&mask(w))
 		return alts[1].payload, true
